@@ -100,7 +100,7 @@ func createGetCmafIngesterInfoHdlr(s *Server) func(ctx context.Context, input *i
 		resp.Body.DestName = ing.destName
 		resp.Body.URL = ing.url
 		resp.Body.ID = input.Id
-		resp.Body.Report = strings.Join(ing.report, "\n")
+		resp.Body.Report = strings.Join(ing.getReport(), "\n")
 		return resp, nil
 	}
 }
@@ -115,7 +115,7 @@ func createStepCmafIngesterHdlr(s *Server) func(ctx context.Context, input *idIn
 		if !ok {
 			return nil, huma.Error404NotFound(fmt.Sprintf("CMAF ingest %s not found", input.Id))
 		}
-		if ci.state == ingesterStateStopped {
+		if ci.getState() == ingesterStateStopped {
 			return nil, huma.Error410Gone(fmt.Sprintf("CMAF ingest %s has stopped", input.Id))
 		}
 		if !ci.triggerNextSegment() {
@@ -137,7 +137,7 @@ func createDeleteCmafIngesterHdlr(s *Server) func(ctx context.Context, input *id
 		if !ok {
 			return nil, huma.Error404NotFound(fmt.Sprintf("CMAF ingest %s not found", input.Id))
 		}
-		if ci.state == ingesterStateRunning {
+		if ci.getState() == ingesterStateRunning {
 			ci.mgr.cancels[uint64(id)]()
 		}
 
